@@ -320,7 +320,25 @@ func frameLayout(c *core.Ctx) {
 	zeroTests := 0
 	for _, call := range astx.Calls(r.Body) {
 		f := astx.CalleeFunc(info, call)
-		if f == nil || p.Decl(f) == nil || len(call.Args) != 1 || astx.ObjOf(info, call.Args[0]) != rarr {
+		if f == nil || p.Decl(f) == nil || len(call.Args) != 1 {
+			continue
+		}
+		// the prefix array itself, or a slice of it (`prefixes[1:]`): off is where the helper's index 0 lies
+		off, plen := int64(0), rl.arrLen
+		if se, isSlice := astx.Unparen(call.Args[0]).(*ast.SliceExpr); isSlice && astx.ObjOf(info, se.X) == rarr {
+			okB := true
+			hi := rl.arrLen
+			if se.Low != nil {
+				off, okB = astx.ConstInt(info, se.Low)
+			}
+			if se.High != nil && okB {
+				hi, okB = astx.ConstInt(info, se.High)
+			}
+			if !okB {
+				continue
+			}
+			plen = hi - off
+		} else if astx.ObjOf(info, call.Args[0]) != rarr {
 			continue
 		}
 		sig := f.Type().(*types.Signature)
@@ -357,6 +375,9 @@ func frameLayout(c *core.Ctx) {
 					}
 					a, okA := astx.ConstInt(info, init.Rhs[0])
 					b, okB := astx.ConstInt(info, cond.Y)
+					if lc, isLen := astx.Unparen(cond.Y).(*ast.CallExpr); isLen && astx.IsBuiltin(info, lc, "len") && len(lc.Args) == 1 && astx.ObjOf(info, lc.Args[0]) == param {
+						b, okB = plen, true
+					}
 					if !okA || !okB {
 						continue
 					}
@@ -372,7 +393,7 @@ func frameLayout(c *core.Ctx) {
 				}
 				if !found {
 					if rs := enclosingRange(hfd.Body, y); rs != nil && astx.ObjOf(info, rs.X) == param && rs.Key != nil && astx.ObjOf(info, rs.Key) == iv {
-						for k := int64(0); k < wl.arrLen; k++ {
+						for k := int64(0); k < plen; k++ {
 							idx[k] = true
 						}
 						found = true
@@ -405,6 +426,13 @@ func frameLayout(c *core.Ctx) {
 		if !decidable {
 			c.Undecided("zero-size-test/"+f.Name(), hfd.Pos(), "indices read by %s not decidable", f.Name())
 			continue
+		}
+		if off != 0 {
+			shifted := map[int64]bool{}
+			for k := range idx {
+				shifted[k+off] = true
+			}
+			idx = shifted
 		}
 		exact := int64(len(idx)) == rl.hi-rl.lo
 		for k := rl.lo; k < rl.hi; k++ {
